@@ -66,6 +66,26 @@ CLAIMED = {
          "Structural necessary condition of aggregate accounting: each aggregate is updated only together with, and by the same term as, the per-shard/per-provider quantity it sums (append vs release siblings agree; provider and pool totals move together; total shard collateral moves by what is stored in the shard — violated at renewal: known finding). The equalities themselves on reachable states are not decided.",
          "Trusts dependencies; parameters of sibling functions are matched by record type.",
          "DESIGN.md §3 C14"),
+ "C04": ("E7/E3/E2: closed table of money flows; charge-once identities (single charge site on every success path, outside loops, amount = persisted Order.Amount, before persistence); deposit only on first completion",
+         "Topology and identity clauses of payment conservation: order escrow pays only the market escrow, the payer's/owner's payment address or the DID ledger; market escrow pays only order escrow, the claiming provider or the owner's payment address; Store and RenewOrder charge exactly once, exactly the amount they persist. Price formula, income accrual, refund arithmetic and the sum identity income + refunds = charged are runtime quantities and are NOT decided.",
+         "Trusts dependencies; value identity is term identity plus 'no write to the variable after the charge'.",
+         "DESIGN.md §3 C04"),
+ "C05": ("E3/E2/E1: must-pass chain in CancelOrder, call-site preconditions (for-all shard removal or pending), refund only before completion, capability absence for reservation, schedule pairing",
+         "Structural necessary conditions of full refund and clean rollback: every success path of CancelOrder refunds the recorded amount (flow table), rolls the model back and removes the order, in that order; every caller first removes all shards or is on the pending branch, and never cancels a completed order; Store/Ready/timeout cannot write pledge records nor take provider coins (proved as absence of capability); removing a model removes its schedule entry. Balance deltas and re-assignment histories are not decided.",
+         "Trusts dependencies; over-approximate call graph.",
+         "DESIGN.md §3 C05"),
+ "C11": ("E3/E1: typestate (period started => release scheduled at own end height) with path-sensitive search, capability tables for release and model deletion, for-all consumption of schedule entries, lifetime coupling",
+         "Structural necessary conditions of retention and expiry: wherever a shard's paid period starts or rotates, every success path schedules its release at that shard's CreatedAt+Duration; shards are removed/collateral released only from the tabled operations; models are deleted only by Terminate and the model end-blocker; the end-blockers handle every id listed for the current height and drop the entry; the model is extended to the scheduled end height. 'Exactly that many blocks later' and exactly-once as temporal facts are not decided.",
+         "Trusts dependencies; Renew is tabled for CAP-release only because the call graph is path-insensitive in UpdateMeta's operation switch.",
+         "DESIGN.md §3 C11"),
+ "C12": ("E3/E2: typestate (hand-over => timeout scheduled) path-sensitive in the isProvider flag, exit classification of the timeout handler by dominating facts, effect scan of the nothing-waiting branch, for-all consumption",
+         "Structural necessary conditions of timeout progress: after providers are selected for waiting shards every success path schedules the order's next examination; every exit of the timeout handler is rescheduled or dominated by an allowed reason; the nothing-waiting branch moves no coins and removes only non-completed shards; the end-blocker hands every listed order to the handler. Eventual completion and the ten-interval bound as arithmetic are not decided.",
+         "Trusts dependencies.",
+         "DESIGN.md §3 C12"),
+ "C13": ("E3: creation/alias/schedule pairings — new shard id listed and its order persisted (interprocedural through pointer-parameter helpers), model and alias created/removed together with the alias key from the same record, period start => release scheduled, model removal => schedule entry removed",
+         "Creation-, alias- and schedule-side necessary conditions of referential integrity. Deletion-side list maintenance across shared renew orders and whole-state agreement need collection reasoning and are not decided.",
+         "Trusts dependencies.",
+         "DESIGN.md §3 C13"),
 }
 
 NA_REASON = "check not implemented yet (framework under construction; see DESIGN.md section 3 for the planned structural clauses)"
